@@ -107,7 +107,11 @@ def temporal_dag(G, u, v=None, start=None, end=None):
                         an = f"{an}_{tid}"
                         sources[an] = None
 
-                DG.add_edge(an, n)
+                if an != n:
+                    DG.add_edge(an, n)
+                else:
+                    # a self-loop of the source at its own instant: keep the occurrence, not an edge onto itself
+                    DG.add_node(an)
                 to_add.append(n)
 
         for n in to_add:
